@@ -256,4 +256,86 @@ PROPS["C11"] = {
     "assumptions": ["net/http.ReadRequest as second opinion", "header values set by the application are free of control bytes (CR/LF are C05; NUL etc. are written verbatim)"],
 }
 
+PROPS["C19"] = {
+    "modules": ["Hertz.Props.C19"],
+    "rule": "Exhaustive: every history of <=3 (quick) / <=4 (thorough) requests over the 13-kind outcome alphabet {ok, body, chunked, "
+            "handler panic, malformed header, body too large, peer closes mid-body, write error now, write error on the next write, "
+            "hijack, handler-initiated close, Connection: close, Expect: 100-continue} x end of connection {peer close, idle time-out} "
+            "x idle style {in-loop IdleTimeout>0, return-to-poller IdleTimeout=0, standard transport 0->-1} at trace level detailed with "
+            "recovery middleware; every history of <=2 (quick) / <=3 (thorough) x trace level {disabled, base, detailed} x "
+            "{recovery, no recovery (unwinding panic), DisableKeepalive, no tracer}; delivery pipelined / one segment per request / "
+            "random segmentation; plus random histories of 1..8 requests mixing the alphabet with the general HTTP/1 request generator "
+            "(all body sizes, chunking, header noise), 25% mutated or truncated (malformed stream), random level / flags / body limit; "
+            "the F9 witness (two requests, then peer close / idle time-out) in all three idle styles first.",
+    "exhaustive_note": "all histories up to the stated length over the 13-kind alphabet x both connection ends x three idle styles are enumerated; longer histories are sampled",
+    "level_text": "Proved in Lean for every configuration with a tracer, every trace level, every connection history of every length "
+                  "(per iteration: idle-peek answer and one of 16 paths through Server.Serve incl. header/body read errors, 100-continue "
+                  "failures, unwinding handler panic, write/flush/release errors, hijack, close, keep-alive) and any number of Serve "
+                  "calls per connection (return-to-poller transports): tracer Start/Finish calls alternate beginning with Start, at "
+                  "every moment #Finish <= #Start <= #Finish+1, the log ends on Finish; the n-th pair's handler and Finish receive the "
+                  "context the n-th Start returned; Finish still sees the data of exactly the request handled inside the pair; Start "
+                  "sees an event table holding nothing of an earlier request; Finish sees start <= read-header <= read-body <= handle "
+                  "<= write <= finish with every started stage finished and Stats().Error() matching the HTTPFinish status. The model's "
+                  "control-flow skeleton (DoStart/DoFinish/Record/push/pop/traceStarted/return sites) is regenerated from server.go on "
+                  "every run and must equal the hand-written one; on all 722 paths through a loop iteration every push has its pop "
+                  "and the loop-head state is restored; event indices/levels are regenerated from event.go. A recording tracer on the "
+                  "real engine over a scripted connection is compared call by call (ids carried through context.Context, request "
+                  "target, error flag, which events are present with which status) with the model, and the Lean predicate logOK is "
+                  "evaluated on the implementation's own log incl. its real time stamps.",
+    "level_note": "Trusted: Lean kernel; translator gen/c19.go (skeleton + event table); harness (recording tracer, scripted net.Conn "
+                  "behind the real standard.Conn via hook H1, directive handler, write-failure injection) and driver. Model time is a "
+                  "logical clock advanced by every Record; real time stamps (time.Now, monotonic) are checked per case. Streaming "
+                  "request bodies, HTTP/2 and netpoll itself are not exercised (the return-to-poller style is driven by re-entering "
+                  "Serve while unread input remains). Open: theorem linking the byte-stream classifier to the keep-alive loop model "
+                  "(both are compared with the real server instead).",
+    "assumptions": ["time.Now() is monotonic (Go monotonic clock reading)",
+                    "a RequestContext taken from the pool has empty stats (it was Reset when put back; an exiled context is not reused)",
+                    "no user-defined stats events (eventMap has predefinedEventNum slots)",
+                    "registered tracers do not panic (Controller.tryRecover would swallow the remaining tracer calls of that DoStart/DoFinish)"],
+    "timeout": {"quick": 300, "thorough": 1500},
+}
+
+PROPS["C16"] = {
+    "modules": ["Hertz.Props.C16"],
+    "harness_dir": "harness16",
+    "gosum": "cmd/hz/go.sum",
+    "rule": "Method lists run through the REAL hz generator (HttpPackageGenerator.Generate + GetFormatAndExcludedFiles, process-global name "
+            "maps cleared per case): bounded-exhaustive lists of <=2 routes over 9 paths x {GET, ANY} and of <=3 routes over "
+            "{/a, /a/b, /a/c, /a-b, /a_b} (thorough: <=2 over 12 paths x 3 verbs, <=3 over 9 paths, <=4 over the 5 paths), each under all 4 "
+            "combinations of sort-router / snake-style and two naming schemes (unique names, names colliding with segments and each other); "
+            "random lists of 1-8 (and 1-30) routes over a 14-segment alphabet (params, catch-alls, a-b/a_b/a.b/A/ab collisions, digits, root "
+            "and trailing-slash paths, shared prefixes), 8 verbs incl. ANY, repeated handler names, handler-by-method with colliding "
+            "output directories, pre-seeded unique-name sets, update of an existing middleware.go (generate k methods, new process, "
+            "generate all); a malformed stream (empty path, no leading slash, empty inner segments, '.', '..', reserved characters, "
+            "odd-case verbs). Per case: generated router.go + middleware.go parsed and type-checked (go/types) against the export data of the "
+            "real hertz packages and the hz-generated handler packages; the body of Register read back into abstract statements, executed "
+            "on a real route.Engine and every route probed through ServeHTTP with tracing middleware; plus batches of generated packages "
+            "compiled and linked with hertz, Engine.Routes() dumped.",
+    "exhaustive_note": "route lists up to the stated length over the stated small path/verb alphabets are enumerated completely under all "
+                       "sort-router x snake-style combinations; everything else is sampled",
+    "level_text": "Proved in Lean for all method lists (no bound on number of routes, depth or names), all option combinations and all sets of "
+                  "names taken earlier: the tree hz renders carries exactly the declared (verb, path elements, handler name) multiset "
+                  "(gen_registers_exactly; also for any permuting sort function), the node paths spell the declared path, tree building never "
+                  "panics and fails only on an empty path, getUniqueName returns a free name, and in camel style on a fresh directory all "
+                  "functions of middleware.go and all variables of Register are pairwise distinct (identifiers_distinct_partial). The statement "
+                  "is FALSE of the code for snake-style names, for snake-style update, for group coverage without sort-router, for an empty "
+                  "service and for a handler directory called root: witness theorems by decide, each replayed against the real generator. The "
+                  "model (statements of Register, functions of middleware.go, imports) equals the real generator's output on every case; the spec "
+                  "(valid Go, no duplicate identifiers, registered set = declared set, one group middleware per prefix, every group on the path wraps "
+                  "the route, real Engine.Routes() and probe traces) is evaluated on the implementation's output.",
+    "level_note": "Trusted: Lean kernel; gen/c16.go (template texts, RouterGroup.Any, probe bound, root node); harness16 (go/parser + go/types against "
+                  "gc export data, AST-to-statement reader, interpreter on the real route.Engine; name maps cleared through go:linkname) and driver. "
+                  "Not modelled: text/template, go/format, the thrift/protobuf front ends (the model starts from the HttpMethod list). Open (checked per "
+                  "case, not proved): denotation theorem interp(stmts tree) = routes of tree with ancestor chains; one-group-per-prefix under "
+                  "sort-router; identifier distinctness for camel-style updates.",
+    "assumptions": ["ASCII paths and names (unicode.IsLetter/IsDigit in removeNonLetterPrefix modelled on ASCII)",
+                    "paths of the quantifier are clean: leading slash, no empty inner segment, no '.'/'..' segment, no quote or backslash (the template "
+                    "writes the path into a Go string literal unescaped); other paths are compared with the model but the spec only judges the route set",
+                    "sort.Sort is the insertion sort Go uses for <=12 elements (cases with a wider node are compared by spec only); the route-set "
+                    "theorem holds for every permuting sort",
+                    "handler_path (OutputDir) values are clean relative paths; method names are Go identifiers",
+                    "default templates (no custom layout file)"],
+    "timeout": {"quick": 300, "thorough": 2400},
+}
+
 NOT_CLAIMED = {}
